@@ -1,4 +1,51 @@
 import GoSup.Model.Planner
-/-! # C16 — property theorems -/
+import GoSup.Model.Cluster
+import GoSup.Spec.C16
+/-!
+# C16 — property theorems (httpcluster diff planner and update execution)
+-/
 namespace GoSup.Props.C16
+open GoSup.Planner GoSup.Spec.C16
+
+/-- **`commit` leaves no pending work**: every surviving entry has action `none`, and no entry
+that was marked `stop` survives -/
+theorem commit_clean (m : Entries) :
+    (commit m).all (fun p => p.2.action == .none) = true
+    ∧ ∀ k e, (k, e) ∈ m → e.action = .stop → ∀ e', (k, e') ∈ commit m → ∃ e0, (k, e0) ∈ m ∧ e0.action ≠ .stop := by
+  refine ⟨?_, ?_⟩
+  · simp [commit, List.all_eq_true]
+  · intro k e _ _ e' h'
+    simp only [commit, List.mem_map, List.mem_filter] at h'
+    obtain ⟨⟨k0, e0⟩, ⟨hm, hne⟩, heq⟩ := h'
+    simp at heq
+    exact ⟨e0, by rw [← heq.1]; exact hm, by simpa using hne⟩
+
+/-- **Decision logic of `processExistingServer`, stated outright** (for every id and entry):
+removed and running ⇒ one stop entry under the id; unchanged ⇒ the same entry, untouched
+(same runner instance), action none; changed and running ⇒ a stop entry for the old instance
+under `id:stop` *and* a fresh start entry under the id; changed and not running ⇒ only the start
+entry. -/
+theorem processExisting_cases (id : String) (old : Entry) (c : Nat) :
+    (old.runner.isSome → processExisting id old none = [(id, { old with action := .stop })])
+    ∧ (old.runner.isNone → processExisting id old none = [])
+    ∧ (old.cfg = c → processExisting id old (some c) = [(id, { old with action := .none })])
+    ∧ (old.cfg ≠ c → old.runner.isSome → processExisting id old (some c) =
+        [(id ++ ":stop", { old with action := .stop }), (id, { id := id, cfg := c, runner := none, action := .start })])
+    ∧ (old.cfg ≠ c → old.runner.isNone → processExisting id old (some c) =
+        [(id, { id := id, cfg := c, runner := none, action := .start })]) := by
+  refine ⟨?_, ?_, ?_, ?_, ?_⟩
+  · intro h; simp [processExisting, h]
+  · intro h; simp [processExisting, Option.isNone_iff_eq_none.mp h]
+  · intro h; simp [processExisting, h]
+  · intro h1 h2; simp [processExisting, h1, h2]
+  · intro h1 h2; simp [processExisting, h1, Option.isNone_iff_eq_none.mp h2]
+
+/-- **The full statement is false** (finding C16-F1): with ids `a` and `a:stop` the stop entry of
+the changed server `a` is overwritten — its running instance is never stopped -/
+theorem plan_fails_with_clash :
+    let cur : Entries := [("a", { id := "a", cfg := 1, runner := some 10, action := .none })]
+    let des : List (String × Nat) := [("a", 2), ("a:stop", 3)]
+    noClash cur des = false ∧ planOk cur des (buildPending cur des) (commit (buildPending cur des)) = false := by
+  decide
+
 end GoSup.Props.C16
